@@ -475,5 +475,8 @@ SUBCHECKS = [
 ]
 
 
+for _s in SUBCHECKS:
+    _s.proc_ignore = ('cwd',)      # the editing functions write ./output.snx: the harness works in a scratch directory
+
 def bounds(tier, seed):
     return {'configs': configs(tier), 'clock_times': TIMES, 'clock_doys': DOYS, 'subsets': 'every subset except all stations'}
